@@ -863,6 +863,43 @@ macro_rules! ext_mod {
                                     }
                                 }
                             }
+                            "g.deraw" => {
+                                // g.deraw <slot> <json|cbor> <hex bytes>: the bytes go to the real deserialiser unchanged.
+                                // json: compared exactly with the byte-level model (Model/Json.lean); cbor: robustness only.
+                                let bytes = crate::exec_cont::unhex(t.get(3).copied().unwrap_or(""));
+                                let r = de(&bytes, t[2]);
+                                let c13 = !ctx.quiet && ctx.oracles.iter().any(|o| o == "c13");
+                                let doc: Option<Doc> = if t[2] == "json" {
+                                    serde_json::from_slice::<Doc>(&bytes).ok()
+                                        .or_else(|| serde_json::from_slice::<(Vec<(usize, i64)>,)>(&bytes).ok().map(|x| (x.0, vec![])))
+                                        .or_else(|| serde_json::from_slice::<Vec<serde::de::IgnoredAny>>(&bytes).ok().filter(|v| v.is_empty()).map(|_| (vec![], vec![])))
+                                } else {
+                                    serde_cbor::from_slice::<Doc>(&bytes).ok()
+                                        .or_else(|| serde_cbor::from_slice::<(Vec<(usize, i64)>,)>(&bytes).ok().map(|x| (x.0, vec![])))
+                                };
+                                match r {
+                                    Err(_) => if t[2] == "json" { "err".into() } else { "any".into() },
+                                    Ok(g2) => {
+                                        if c13 {
+                                            if let Err(m) = ok_graph_invariants(&g2, &doc) {
+                                                ctx.fail(case, li, "c13", format!("deserialising the {} bytes {} returned Ok but {m}", t[2], t.get(3).copied().unwrap_or("")));
+                                            }
+                                        }
+                                        if t[2] != "json" {
+                                            "any".into()
+                                        } else {
+                                            let mut order: Vec<usize> = vec![];
+                                            match &doc {
+                                                Some((dn, _)) => for (k, _) in dn { if !order.contains(k) { order.push(*k); } },
+                                                None => { order = g2.iter().map(|(k, _)| *k).collect(); order.sort(); }
+                                            }
+                                            let n = g2.len();
+                                            replace_world(st, ext, g2, &order);
+                                            format!("ok n={n}")
+                                        }
+                                    }
+                                }
+                            }
                             _ => "bad-op".into(),
                         }
                     }
